@@ -65,7 +65,7 @@ def model_phase(rep, tier):
     sizes = dict(bulk="30, 51" if q else "2, 30, 49, 51", ticks="9, 15" if q else "1, 9, 15", maxi=120 if q else 170, maxt=33 if q else 40)
     res = tlc.model_check("AwDurable", MC % dict(dc="TRUE", rev="FALSE", invs=ALL_INVS, **sizes), tag="mc_dur", timeout=2400)
     rep.add_model(res, "commit-policy design layer (counter > 50 or age > 10 s, deletes counted) satisfies the property layer "
-                       "(BufferedBounded 64, BucketOpsDurable, AgeBound 15 s, CounterExact, DurableMonotone) for all histories within the bound")
+                       "(BufferedBounded 64, BucketOpsDurable, AgeBound 15 s, CounterExact, DurableMonotone) for all histories within the bound (incl. operations that raise, crashes)")
     # negative controls: the same text with the pinned tree's knobs must be refuted (the properties are not vacuous)
     neg = {}
     small = MC.replace("Threshold = 50", "Threshold = 5").replace("MaxBuffered = 64", "MaxBuffered = 7")
